@@ -1,11 +1,11 @@
 (* Extraction of the C20 executable model (ExtrOcamlBasic only; Z/positive/nat stay inductive types).
    coqc runs with cwd = /verif/coq (coq_makefile), so the output lands in coq/extracted/. *)
 From Coq Require Import ZArith List Extraction ExtrOcamlBasic.
-From Kenlm Require Import Base.Mem Base.Fuel Gen.BitPacking Gen.SortedUniform Gen.ProbingMod C20.ProbingModel C20.SearchModel C20.ArrayModel C20.MiddleModel.
+From Kenlm Require Import Base.Mem Base.Fuel Gen.BitPacking Gen.SortedUniform Gen.ProbingMod C20.ProbingModel C20.SearchModel C20.ArrayModel C20.MiddleModel C03.BhikshaModel.
 Extraction Language OCaml.
 Extraction "extracted/c20_model.ml"
   wrap ReadInt57 WriteInt57 ReadInt25 WriteInt25 ReadFloat32 WriteFloat32 ReadNonPositiveFloat31
   WriteNonPositiveFloat31 SetSign UnsetSign RequiredBits Pivot32_Calc Power2Mod_RoundBuckets DivMod_RoundBuckets
   ideal_of next_of find insert find_or_insert double_cells auto_find_or_insert auto_find empty_cells threshold
   bitpacked_base_size bounded_find binary_find sorted_uniform_find Pivot64_Calc Z_of_bytes bytes_of_Z
-  bits_needed mid_inserts mid_finish mid_find.
+  bits_needed mid_inserts mid_finish mid_find midA_inserts midA_finish midA_find inline_bits array_count.
